@@ -104,6 +104,8 @@ type c18Scenario struct {
 	dbE      *asserts.Database // same content, used in SetEarliestTime mode
 	sdb      *asserts.Database // signing only
 	infra    []asserts.Assertion
+	r0       *c18Key             // trusted, open-ended, unconstrained root key
+	lifeBase []asserts.Assertion // [root account, R0 account-key]: trusted set of the key-lifecycle database
 }
 
 var c18Zones = []*time.Location{time.UTC, time.FixedZone("", 2*3600), time.FixedZone("", -(5*3600 + 30*60))}
@@ -337,6 +339,10 @@ func c18NewScenario(idx int, rng *rand.Rand) *c18Scenario {
 	}
 	for _, k := range sc.Keys {
 		ak := sc.accountKeyAssertion(rng, k, r0)
+		if k == r0 {
+			sc.r0 = r0
+			sc.lifeBase = []asserts.Assertion{trusted[0], ak}
+		}
 		switch k.Where {
 		case "trusted":
 			trusted = append(trusted, ak)
@@ -409,6 +415,66 @@ func c18Boundaries(k *c18Key) []c18Instant {
 	)
 }
 
+// headersFor fills it.Filter and builds the type-specific headers (with
+// authority-id) and body of a test assertion.
+func (sc *c18Scenario) headersFor(it *c18Item, n int, ts string, rng *rand.Rand) (map[string]interface{}, []byte) {
+	all := append([]string{sc.Root}, sc.Accounts...)
+	pool := sc.filterPool(it.Type)
+	it.Filter = pool[rng.Intn(len(pool))]
+	sp := c18Pool[sc.spare[rng.Intn(len(sc.spare))]]
+	var h map[string]interface{}
+	var body []byte
+	switch it.Type {
+	case "account":
+		h = map[string]interface{}{"account-id": fmt.Sprintf("new-acct-%d-%d", sc.Idx, n), "display-name": "New Account",
+			"username": it.Filter, "validation": "unproven", "timestamp": ts}
+	case "account-key":
+		since := sc.T0.Add(time.Duration(rng.Intn(1000)) * c18Day)
+		h = map[string]interface{}{"account-id": all[rng.Intn(len(all))], "name": it.Filter,
+			"public-key-sha3-384": sp.id, "since": c18Fmt(since, rng)}
+		if rng.Intn(2) == 0 {
+			h["until"] = c18Fmt(since.Add(time.Duration(1+rng.Intn(900))*c18Day), rng)
+		}
+		body = sp.enc
+	case "snap-declaration":
+		h = map[string]interface{}{"series": "16", "snap-id": c18ID32(rng), "snap-name": it.Filter,
+			"publisher-id": all[rng.Intn(len(all))], "timestamp": ts}
+	case "snap-revision":
+		dg := make([]byte, 48)
+		rng.Read(dg)
+		enc, err := asserts.EncodeDigest(crypto.SHA3_384, dg)
+		if err != nil {
+			panic(err)
+		}
+		h = map[string]interface{}{"snap-sha3-384": enc, "snap-id": sc.snapID, "snap-size": fmt.Sprint(1 + rng.Intn(1<<20)),
+			"snap-revision": fmt.Sprint(1 + rng.Intn(500)), "developer-id": it.Filter, "timestamp": ts}
+	case "model":
+		h = map[string]interface{}{"series": "16", "brand-id": it.Authority, "model": it.Filter, "architecture": "amd64",
+			"gadget": "pc", "kernel": "pc-kernel", "timestamp": ts}
+		if rng.Intn(2) == 0 {
+			h["required-snaps"] = []interface{}{"foo", "bar"}
+		}
+	case "serial":
+		h = map[string]interface{}{"brand-id": it.Authority, "model": it.Filter, "serial": fmt.Sprintf("sn-%d", n),
+			"device-key": string(sp.enc), "device-key-sha3-384": sp.id, "timestamp": ts}
+		if rng.Intn(2) == 0 {
+			body = []byte(fmt.Sprintf("hw-id: %d\nnotes: generated\n\nsecond paragraph", rng.Intn(1000)))
+		}
+	case "validation-set":
+		h = map[string]interface{}{"series": "16", "account-id": it.Authority, "name": it.Filter, "sequence": fmt.Sprint(1 + rng.Intn(9)),
+			"snaps": []interface{}{map[string]interface{}{"name": "foo", "id": c18ID32(rng), "presence": "required", "revision": "5"},
+				map[string]interface{}{"name": "bar", "id": c18ID32(rng), "presence": "optional"}},
+			"timestamp": ts}
+	case "system-user":
+		since := sc.T0.Add(time.Duration(rng.Intn(1000)) * c18Day)
+		h = map[string]interface{}{"brand-id": it.Authority, "email": "user@example.com", "series": []interface{}{"16"},
+			"models": []interface{}{"alpha-1", "beta-1"}, "name": "Generated User", "username": it.Filter,
+			"password": "$6$salt$hash", "since": c18Fmt(since, rng), "until": c18Fmt(since.Add(300*c18Day), rng)}
+	}
+	h["authority-id"] = it.Authority
+	return h, body
+}
+
 // newItem generates and signs one test assertion. It returns nil when snapd's
 // signing side refuses the generated headers (counted by the caller).
 func (sc *c18Scenario) newItem(n int, rng *rand.Rand, prev []*c18Item) (*c18Item, error) {
@@ -478,60 +544,8 @@ func (sc *c18Scenario) newItem(n int, rng *rand.Rand, prev []*c18Item) (*c18Item
 	}
 	ts := c18Fmt(it.TS, rng)
 
-	pool := sc.filterPool(it.Type)
-	it.Filter = pool[rng.Intn(len(pool))]
-	sp := c18Pool[sc.spare[rng.Intn(len(sc.spare))]]
-	var h map[string]interface{}
-	var body []byte
+	h, body := sc.headersFor(it, n, ts, rng)
 	typ := asserts.Type(it.Type)
-	switch it.Type {
-	case "account":
-		h = map[string]interface{}{"account-id": fmt.Sprintf("new-acct-%d-%d", sc.Idx, n), "display-name": "New Account",
-			"username": it.Filter, "validation": "unproven", "timestamp": ts}
-	case "account-key":
-		since := sc.T0.Add(time.Duration(rng.Intn(1000)) * c18Day)
-		h = map[string]interface{}{"account-id": all[rng.Intn(len(all))], "name": it.Filter,
-			"public-key-sha3-384": sp.id, "since": c18Fmt(since, rng)}
-		if rng.Intn(2) == 0 {
-			h["until"] = c18Fmt(since.Add(time.Duration(1+rng.Intn(900))*c18Day), rng)
-		}
-		body = sp.enc
-	case "snap-declaration":
-		h = map[string]interface{}{"series": "16", "snap-id": c18ID32(rng), "snap-name": it.Filter,
-			"publisher-id": all[rng.Intn(len(all))], "timestamp": ts}
-	case "snap-revision":
-		dg := make([]byte, 48)
-		rng.Read(dg)
-		enc, err := asserts.EncodeDigest(crypto.SHA3_384, dg)
-		if err != nil {
-			panic(err)
-		}
-		h = map[string]interface{}{"snap-sha3-384": enc, "snap-id": sc.snapID, "snap-size": fmt.Sprint(1 + rng.Intn(1<<20)),
-			"snap-revision": fmt.Sprint(1 + rng.Intn(500)), "developer-id": it.Filter, "timestamp": ts}
-	case "model":
-		h = map[string]interface{}{"series": "16", "brand-id": it.Authority, "model": it.Filter, "architecture": "amd64",
-			"gadget": "pc", "kernel": "pc-kernel", "timestamp": ts}
-		if rng.Intn(2) == 0 {
-			h["required-snaps"] = []interface{}{"foo", "bar"}
-		}
-	case "serial":
-		h = map[string]interface{}{"brand-id": it.Authority, "model": it.Filter, "serial": fmt.Sprintf("sn-%d", n),
-			"device-key": string(sp.enc), "device-key-sha3-384": sp.id, "timestamp": ts}
-		if rng.Intn(2) == 0 {
-			body = []byte(fmt.Sprintf("hw-id: %d\nnotes: generated\n\nsecond paragraph", rng.Intn(1000)))
-		}
-	case "validation-set":
-		h = map[string]interface{}{"series": "16", "account-id": it.Authority, "name": it.Filter, "sequence": fmt.Sprint(1 + rng.Intn(9)),
-			"snaps": []interface{}{map[string]interface{}{"name": "foo", "id": c18ID32(rng), "presence": "required", "revision": "5"},
-				map[string]interface{}{"name": "bar", "id": c18ID32(rng), "presence": "optional"}},
-			"timestamp": ts}
-	case "system-user":
-		since := sc.T0.Add(time.Duration(rng.Intn(1000)) * c18Day)
-		h = map[string]interface{}{"brand-id": it.Authority, "email": "user@example.com", "series": []interface{}{"16"},
-			"models": []interface{}{"alpha-1", "beta-1"}, "name": "Generated User", "username": it.Filter,
-			"password": "$6$salt$hash", "since": c18Fmt(since, rng), "until": c18Fmt(since.Add(300*c18Day), rng)}
-	}
-	h["authority-id"] = it.Authority
 	if rng.Intn(4) == 0 {
 		h["revision"] = fmt.Sprint(1 + rng.Intn(5))
 	}
